@@ -1,6 +1,89 @@
-/- Driver handler for area `fuzz` (C18): the model's answer for every input is "no panic".
-   The theorems behind that answer are in VProps/C18.lean (modelled sites) — see DESIGN.md §5 C18. -/
+/- Driver handler for area `fuzz` (C18).
+
+   For the ops without a panic-explicit model the answer is the constant "no panic" (the theorems behind that are in
+   VProps/C18.lean — see DESIGN.md §5 C18).  For `fuzz.event` the models ARE run on the op: every text is parsed with
+   `parseUntrusted` (SHA-256 = `Hash.sha256`), every accepted event goes through the accessor sweep of
+   `VModel.EventAccessors` (`touched`, what the harness' `touchAccessors` calls), the accepted events go through the
+   panic-explicit orderings and both state-resolution entry points of `VModel.StateResPanic` exactly as the harness
+   feeds them, then the first event is signed (when `sigsDecodable`), redacted and swept again.  The model outcome is `nopanic` or `panic:<site>`; the
+   specification outcome is always `nopanic` (C18).  A model panic where the implementation does not panic is a broken
+   tie (the model has a site the code lacks); an implementation panic is a violation whatever the model says. -/
 import VDriver.Util
+import VModel.EventAccessors
+import VModel.StateResPanic
 namespace V.Driver.FuzzOps
-def handle (_op : String) (_args : Array String) : Option String := some "nopanic\tnopanic"
+open V V.Json V.EventParse V.EventAccessors V.StateResPanic
+
+def H : Bytes → Bytes := Hash.sha256
+
+/-- the event as the auth / resolution models see it -/
+def toEvent (e : PDU) : Event := { ver := e.ver, eventID := e.f.eventIDRaw, obj := e.obj }
+
+def siteOf {α : Type} : Except Err α → Option String
+  | .error (.panic s) => some s
+  | _ => none
+
+def firstSite (xs : List (Unit → Option String)) : Option String :=
+  xs.findSome? (fun f => f ())
+
+def eventOp (args : Array String) : Option String := do
+  let ver := strBytes (← args[0]?)
+  let texts ← (args.toList.drop 1).mapM unhex
+  -- The byte-level JSON parser of VModel.Json takes time quadratic in the text length (≈ 12 s for a 50 KB event); the
+  -- generator pads about one event in ten with a string of up to 70 000 bytes.  Ops carrying such a text are not
+  -- run through the models (the implementation is still held to the specification outcome `nopanic`).
+  if texts.any (fun t => decide (t.length > 6000)) then
+    return "skip:event text over 6000 bytes (quadratic byte-level parser model)\tnopanic"
+  let evs : List PDU := (texts.map (fun t => parseUntrusted H ver t)).filterMap (fun r => match r with
+    | .ok e => some e
+    | .error _ => none)
+  -- (an event accepted only as "too large but persistable" is used by the harness but reported by the model as an
+  --  error without the event: such events are missing here)
+  match evs.head? with
+  | some first =>
+    let vs := evs.map toEvent
+    let sevs := vs.filter (fun e => e.stateKey.isSome)
+    let half := min (sevs.length / 2 + 1) sevs.length
+    let site := firstSite [
+      fun _ => evs.findSome? (fun e => touched.findSome? (fun a => panicSite H a e)),
+      fun _ => siteOf (reverseTopoAuthEntryP vs),
+      fun _ => siteOf (reverseTopoPrevEntryP vs),
+      fun _ => if sevs.isEmpty then none else siteOf (resolveConflictsNewP (fun _ => []) ver [sevs.take half, sevs] vs []),
+      fun _ => if sevs.isEmpty then none else siteOf (resolveConflictsOldP (fun _ => []) ver sevs vs []),
+      fun _ =>
+        -- Sign() in place when the precondition of `no_panic_sign` holds (the signature value does not matter here),
+        -- then Redact() and the sweep on the redacted event
+        let signed : Except Err PDU := if sigsDecodable first then sign first b!"me" b!"ed25519:1" b!"c2ln" else .ok first
+        match signed with
+        | .error (.panic s) => some s
+        | r =>
+          let e1 := match r with
+            | .ok x => x
+            | .error _ => first
+          match redact e1 with
+          | .error (.panic s) => some s
+          | .error _ => none
+          | .ok e' => touched.findSome? (fun a => panicSite H a e')]
+    match site with
+    | some s => some ("panic:" ++ s ++ "\tnopanic")
+    | none => some "nopanic\tnopanic"
+  | none => some "nopanic\tnopanic"
+
+/-- replay-only op: `Sign()` on an accepted event without the precondition of `no_panic_sign` (defect D1) -/
+def signOp (args : Array String) : Option String := do
+  let ver := strBytes (← args[0]?)
+  let text ← unhex (← args[1]?)
+  match parseUntrusted H ver text with
+  | .ok e =>
+    match panicSite H (.sign b!"me" b!"ed25519:1" b!"c2ln") e with
+    | some s => some ("panic:" ++ s ++ "\tnopanic")
+    | none => some "nopanic\tnopanic"
+  | .error _ => some "nopanic\tnopanic"
+
+def handle (op : String) (args : Array String) : Option String :=
+  match op with
+  | "event" => eventOp args
+  | "sign" => signOp args
+  | _ => some "nopanic\tnopanic"
+
 end V.Driver.FuzzOps
